@@ -783,6 +783,9 @@ func (e *Env) unsafeStringCast(x *ast.StarExpr) (Value, bool) {
 	if s.K != VSlice || s.ElemU {
 		return Value{}, false
 	}
-	e.w.trustedNote("unsafe cast of a byte slice to a string (TakeRedactableString) modelled as a string over the same bytes; the slice header layout is trusted")
+	e.w.trustedNote("unsafe cast of a byte slice to a string modelled as a string over the same bytes; the slice header layout is trusted")
+	if e.inline == 0 {
+		e.unsafeCasts = append(e.unsafeCasts, e.tmp(s.Ref))
+	}
 	return Value{K: VStr, Arr: e.tmp(Select(e.mem(), s.Ref)), Off: s.Off, Len: s.Len, Typ: rt}, true
 }
